@@ -15,7 +15,9 @@ func init() {
 		},
 	}, map[string]propSpec{
 		"C10": {level: "fault_enumeration", quickS: 45, thoroughS: 660,
+			extra: []stageSpec{{harness: "store", quickS: 20, thoroughS: 240}},
 			probes: []string{"ref_decoded_ok", "trunc_then_err", "ow_then_err", "ow_then_ok", "flip_then_ok", "flip_then_err",
-				"retype_decoded", "accessors_on_faulty_model", "rderr_fired", "skerr_fired", "short_reads"}},
+				"retype_decoded", "accessors_on_faulty_model", "rderr_fired", "skerr_fired", "short_reads",
+				"keeps_serving", "create_rejected_damaged_file", "show_error_on_damaged"}},
 	})
 }
